@@ -444,7 +444,83 @@ MARKER_PROPS = {
 }
 
 
+# ---------------------------------------------------------------- C15: T(source item)
+def _c15_conv(U, T, v):
+    """static_cast<T>(u) on Python integers; independent of the Coq model"""
+    import construct_gen as cg
+    if U == 18 and T != 18:
+        v = v + 1                       # Wrap::operator int32_t
+        v = ((v + 2 ** 31) % 2 ** 32) - 2 ** 31
+    if T == 0:
+        return 1 if v != 0 else 0
+    if T in (9, 10):
+        return float(v)
+    if T in (13, 14, 15):
+        return v + {13: 0, 14: 8, 15: 0}[T] if U == 13 else v
+    if T == 17 and U == 16:
+        x = (v - 32) * 5
+        return abs(x) // 9 * (1 if x >= 0 else -1)      # truncation toward zero
+    bits = 8 * cg.SIZE[T]
+    v = int(v) % 2 ** bits
+    if T in cg.SIGNED and v >= 2 ** (bits - 1):
+        v -= 2 ** bits
+    return v
+
+
+def _c15_repr(T, x):
+    import struct
+    import construct_gen as cg
+    if T == 9:
+        return struct.pack("<f", x).hex()
+    if T == 10:
+        return struct.pack("<d", x).hex()
+    n = cg.SIZE[T]
+    return (int(x) % 2 ** (8 * n)).to_bytes(n, "little").hex()
+
+
+def oracle_C15_lines(lines, il):
+    v = []
+    steps, markers = parse_obs(il)
+    raw = {}
+    cur = -1
+    for l in il:
+        t = l.split()
+        if not t:
+            continue
+        if t[0] == "STEP":
+            cur = int(t[1])
+            raw[cur] = {}
+        elif t[0] in ("STORED", "MOVED") and cur >= 0:
+            raw[cur][t[0]] = t[1:]
+        elif t[0] in ("PATHERR", "UNKNOWN-CASE", "CRASH"):
+            v.append("step %d: %s" % (cur, l))
+    for i, line in enumerate(lines):
+        a = [int(x) for x in line.split()[1:]]
+        k, T, U, f, rv, var, n = a[:7]
+        vals = a[7:]
+        ob = raw.get(i)
+        if ob is None or "STORED" not in ob:
+            v.append("step %d: no result for case %d" % (i, k))
+            continue
+        exp = ",".join(_c15_repr(T, _c15_conv(U, T, x)) for x in vals[:n]) or "-"
+        got = ob["STORED"][0] if ob["STORED"] else "-"
+        if got != exp:
+            v.append("step %d case %d (stored type %d <- source type %d, form %d%s%s): stored %s, T(source item) is %s" % (
+                i, k, T, U, f, " rvalue" if rv else "", " varying" if var else "", got, exp))
+        if U == 19:
+            moves = f == 7 or (f in (0, 1, 2, 3) and rv)
+            expm = [1 if (moves and j < n) else 0 for j in range(len(vals))]
+            if f == 2:
+                expm = None                # generated items are temporaries
+            gotm = [int(x) for x in ob.get("MOVED", [])]
+            if expm is not None and gotm != expm:
+                v.append("step %d case %d: source items moved from %r times, expected %r" % (i, k, gotm, expm))
+    return v[:5]
+
+
 def check(prop, L, K, lines, il, expect=None):
+    if prop == "C15":
+        return oracle_C15_lines(lines, il)
     """list of violation descriptions of property `prop` visible in the implementation's
     observation lines `il` of script `lines`"""
     v = []
